@@ -486,7 +486,8 @@ func (c *kase) clauses(o *obs, fail func(class, what string)) {
 			}
 		}
 	}
-	for d := 1; d < len(c.names); d++ {
+	for d := 1; d < len(c.names) && !c.hasReserved(); d++ {
+		// the ports a redirect for d may name: the listeners of the redirect-enabled servers naming d
 		right := map[int]bool{}
 		any := false
 		for si := range c.servers {
@@ -496,47 +497,70 @@ func (c *kase) clauses(o *obs, fail func(class, what string)) {
 			}
 			any = true
 			for _, a := range s.listen {
-				if !a.coversPort(hp) {
-					right[c.portRule(a.sp)] = true
-				}
+				right[c.portRule(a.sp)] = true
 			}
 		}
 		if !any {
 			continue
 		}
 		name := c.names[d].s
-		var cands []*oserver
-		for _, t := range httpSrvs {
-			if !userHostRoute(t.name, d) || t.name == reservedName && c.reservedOverwritten(o) {
-				cands = append(cands, t)
-			}
-		}
 		if len(httpSrvs) == 0 {
 			fail("redirect:no-http-port-server", fmt.Sprintf("%q should be redirected but no server listens on the HTTP port", name))
 			continue
 		}
+		// HTTP-port servers that carry no user route for d
+		var cands []*oserver
 		for _, t := range httpSrvs {
-			lists := false
-			for _, r := range t.routes {
-				if r.redir && has(r.hosts, name) {
-					lists = true
-				}
-			}
-			if p, ok := effective(t, name); lists && ok && !right[p] {
-				fail(c.redirClass("redirect:listed-name-answered-with-unserved-port", o, t), fmt.Sprintf("server %s has a redirect route for %q but a request gets port %d; served ports (after the port rule): %v", t.name, name, p, keys(right)))
+			if !userHostRoute(t.name, d) {
+				cands = append(cands, t)
 			}
 		}
 		if len(cands) == 0 {
 			continue
 		}
-		good := false
+		good, shadowed := false, false
 		for _, t := range cands {
-			if p, ok := effective(t, name); ok && right[p] {
+			p, ok := effective(t, name)
+			if ok && right[p] {
 				good = true
+			}
+			// every redirect route of t that covers d (lists it, or has no host matcher)
+			cover := map[int]bool{}
+			lists := false
+			for _, r := range t.routes {
+				if r.redir && (!r.hasHost || has(r.hosts, name)) {
+					cover[r.port] = true
+					if r.hasHost {
+						lists = true
+					}
+				}
+			}
+			anyRight := false
+			for q := range cover {
+				if right[q] {
+					anyRight = true
+				}
+			}
+			if ok && !right[p] && anyRight {
+				shadowed = true
+			}
+			if lists && ok && !right[p] {
+				cls := "redirect:listed-name-answered-with-unserved-port"
+				if anyRight {
+					cls = "redirect:right-redirect-shadowed-by-route-order"
+				}
+				fail(cls, fmt.Sprintf("server %s has a redirect route for %q but a request gets port %d; served ports (after the port rule): %v", t.name, name, p, keys(right)))
 			}
 		}
 		if !good {
-			fail(c.redirClass("redirect:no-redirect-to-served-port", o, cands[0]), fmt.Sprintf("%q: no HTTP-port server without a user route for it redirects to a served port %v (effective: %s)", name, keys(right), c.effTable(o)))
+			cls := "redirect:no-redirect-to-served-port"
+			switch {
+			case shadowed:
+				cls = "redirect:right-redirect-shadowed-by-route-order"
+			case len(o.certs) == 0 && c.existingReceiverHasOnlyCatchAll(o, cands):
+				cls = "redirect:names-dropped-when-no-name-has-managed-certificates"
+			}
+			fail(cls, fmt.Sprintf("%q: no HTTP-port server without a user route for it redirects to a served port %v (effective: %s)", name, keys(right), c.effTable(o)))
 		}
 	}
 	// ---- (d) position and port rule of every redirect route
@@ -579,11 +603,39 @@ func (c *kase) clauses(o *obs, fail func(class, what string)) {
 	}
 }
 
-func (c *kase) reservedOverwritten(o *obs) bool { return false }
+// hasReserved: a user server carries the name of the generated redirect server (it is
+// overwritten when that server is created; no redirect claim is made for such configs).
+func (c *kase) hasReserved() bool {
+	for i := range c.servers {
+		if c.servers[i].name == reservedName {
+			return true
+		}
+	}
+	return false
+}
 
-// redirClass refines a redirect failure class by the known shapes of the unchanged tree.
-func (c *kase) redirClass(base string, o *obs, t *oserver) string {
-	return base
+// existingReceiverHasOnlyCatchAll: one of the candidate servers comes from the config (it
+// is not the generated redirect server) and holds matcher-less redirect routes only —
+// the shape `if len(uniqueDomainsForCerts) != 0 { insert }; appendCatchAll` leaves behind.
+func (c *kase) existingReceiverHasOnlyCatchAll(o *obs, cands []*oserver) bool {
+	for _, t := range cands {
+		if t.name == reservedName {
+			continue
+		}
+		n, withHost := 0, 0
+		for _, r := range t.routes {
+			if r.redir {
+				n++
+				if r.hasHost {
+					withHost++
+				}
+			}
+		}
+		if n > 0 && withHost == 0 {
+			return true
+		}
+	}
+	return false
 }
 
 func keys(m map[int]bool) []int {
